@@ -11,6 +11,21 @@ CLAIMS = {
  "C17": ("proof", "contract-based deductive verification: contracts on push/pop/__enter__/__exit__/memoize/AdjointTape over an arbitrary-depth symbolic stack + z3 sequence lemma for all nestings + AST frame scan",
          "push/pop/get, Interpretation.__enter__/__exit__ (normal and exceptional exits), PrioritizedInterpretation.__init__/interpret, memoize and AdjointTape.__enter__ are proved against stack contracts for every stack depth; a frame scan of all of funsor/ proves nobody else writes the stack and every with-block is plain; the nesting lemma's cases are discharged over z3 sequences (the structural induction over nesting words is a paper step).",
          TB + "; Python's with-statement semantics; induction over nesting words not mechanised", "3/C17"),
+ "C07": ("proof", "contract-based deductive verification: get-or-create contracts on the five intern tables executed on the real bodies, key-injectivity contract, table-invariant lemma (z3 arrays), AST ownership scan; bounded histories as labelled stand-in",
+         "reflect, make_hash_key, ArrayType.__getitem__, OpMeta.__call__, GenericTypeMeta.__getitem__ and Memoize.interpret are proved against get-or-create contracts (hit returns the cached object and constructs nothing; miss constructs from exactly the arguments and stores under exactly their key); a lemma shows the table invariant is preserved and that equal keys give the identical object; an AST scan proves no other code touches the tables and that they are weak. Garbage collection itself is axiomatised; construct/drop/gc/pickle histories are explored by the bounded tier only.",
+         TB + "; axioms: WeakValueDictionary semantics, id() unique among live objects", "3/C07"),
+ "C15": ("proof", "contract-based deductive verification: table entries extracted from the AST, op meanings from their definitions, one algebraic VC per entry over extended reals / booleans (z3)",
+         "Every UNITS / DISTRIBUTIVE_OPS / *_INVERSES / PRODUCT_TO_POWER statement found in ops/builtin.py and ops/array.py becomes an obligation (unit, distributivity on the declared carrier, inverse, power-by-induction) proved with the op bodies executed symbolically; floats are idealised as extended reals with listed exp/log axioms, so float edge behaviour (scalar = array, no NaN, limits at -inf) is checked by the bounded tier only.",
+         TB + "; A-real: machine floats treated as extended reals; ground exp/log axioms listed in the evidence", "3/C15"),
+ "C16": ("proof", "contract-based deductive verification: the real deep_issubclass family executed over an abstract type grammar with symbolic leaves and arbitrary class hierarchies (z3); get-or-compute contract of partial_call; first-match-minimal lemma",
+         "Reflexivity and transitivity of the parametric subtype relation are proved for all type terms of nesting depth <= 1 / arity <= 2 with symbolic leaves (Any or any class, any hierarchy) by executing the real bodies; partial_call is proved to return the dispatched function for the deep types independently of cache state; a lemma shows the first match in a topological order is most specific. multipledispatch's ordering is an assumed third-party contract; the real registries are checked by the bounded tier. One genuine reflexivity defect (Union listing Any) is a recorded known finding.",
+         TB + "; type terms of depth <= 1; multipledispatch ordering assumed", "3/C16"),
+ "C19": ("proof", "contract-based deductive verification: layout functions executed over a symbolic n-d array theory (all sizes and contents symbolic), index-map equalities discharged by z3; round trip as a lemma executing both real bodies",
+         "Tensor.__init__, align_tensor, Tensor.align, tensor_to_funsor, tensor_to_data and the to_funsor/to_data round trip are proved element-wise (every value stays with its name) for every size and content, for every naming/permutation within a stated bound on the number of dimensions; numpy's permute/reshape/expand are models conformance-tested against numpy. Gaussian/Contraction/Delta align and materialize are covered by the bounded tier only.",
+         TB + "; structure bound: <= 3 names (4 thorough), event rank <= 2; sizes >= 1", "3/C19"),
+ "C20": ("other", "contract-based deductive verification: static frame analysis (may-alias scan of every function in the core modules) + contracts on the two array-writing ops; run-time frame contracts (snapshots) as labelled bounded stand-in",
+         "A frame obligation per core module (no write through a parameter-reachable location, no in-place dunder) is discharged by an AST may-alias scan whose residual sites are cleared by a hand-reviewed allow-list (printed in the evidence, so this is not called a proof); _scatter/_scatter_add are proved to write only into a private copy; the scan is self-tested with seeded writes. A new definite write into term/array state is reported as a violation, any other uncleared site as undecided.",
+         TB + "; the reviewed allow-list frame/mutation_allow.json; numpy C-level writes through unknown views are only covered by the bounded tier", "3/C20"),
 }
 checks = []
 for p in props:
